@@ -7,6 +7,8 @@ from ..flow import PRUNE, Soft, Violation, explore, implied_atoms, \
     path_ends, path_is, prov_has, provenance, store_value, truth_test
 from ..locks import POOL_WRITE, explore_locksets, held_locks, lock_ops, \
     step_held
+from ..cfg import header_exprs
+from ..flow import OP_KINDS
 from ..model import ClassInfo, dotted, walk_local
 from ..twopc import BLOBSTORAGE, BS, DS, FS, MS, identity_guard
 from .c01 import publishes
@@ -614,7 +616,42 @@ def r7(R):
                                 out.append(op)
             return out
 
-        def check(node, held, name=name, su=shared_handle_use):
+        def handle_reads(node, b=b):
+            # the handle taken as a value (an alias outlives the lock: a
+            # pack replaces and closes the file it names)
+            out = []
+            if node.kind not in OP_KINDS or node.ast is None or \
+                    tuple(node.frame.self_path) != ('self',) or \
+                    '_file' in node.frame.func.params:
+                return out      # (format helpers: decided by their binding)
+            if node.kind == 'withenter':
+                exprs = [node.info['item'].context_expr]
+            elif node.kind in ('test', 'foriter'):
+                exprs = [node.ast]
+            elif node.kind == 'for':
+                exprs = []
+            else:
+                exprs = header_exprs(node.ast)
+            for e in exprs:
+                for x in ast.walk(e):
+                    if isinstance(x, ast.Attribute) and isinstance(
+                            x.ctx, ast.Load) and x.attr == '_file' and \
+                            dotted(x) and b.canon(x, node.frame) == (
+                                'self', '_file'):
+                        out.append(x)
+            return out
+
+        def check(node, held, name=name, su=shared_handle_use,
+                  hr=handle_reads):
+            if hr(node):
+                key = (node.frame.func.qualname, node.text(50))
+                sites.setdefault(key, set()).add(name)
+                if ('self', '_lock') not in held:
+                    return ('`%s` takes the shared data-file handle (entry '
+                            'point %s) without the storage lock: a pack '
+                            'that completes before the handle is used has '
+                            'replaced and closed the file it names' % (
+                                node.text(50), name))
             for op in su(node):
                 key = (node.frame.func.qualname, node.text(50))
                 sites.setdefault(key, set()).add(name)
@@ -635,6 +672,65 @@ def r7(R):
                    entry_points=sorted(eps)[:4])
     for k, why in EXEMPT_ENTRY.items():
         R.named_exception('FileStorage.' + k, why)
+    # an alias of the handle that lives across a window in which the lock is
+    # given up is compared with the current handle before it is used again
+    nwin = 0
+    for f in cls.methods.values():
+        gives_up = [c for c in walk_local(f.node) if isinstance(c, ast.Call)
+                    and dotted(c.func) == ('self', '_lock', 'release')]
+        if not gives_up:
+            continue
+        g, b, F = R.cfg(f, cls, max_depth=0)
+
+        def mentions_handle(e):
+            return any(isinstance(x, ast.Attribute) and dotted(x) == (
+                'self', '_file') for x in ast.walk(e))
+
+        def edge(node, st, lab, tgt, F=F):
+            aliases, stale = st
+            if node.kind == 'test' and lab in ('T', 'F'):
+                for x in ast.walk(node.ast):
+                    if isinstance(x, ast.Compare) and len(x.ops) == 1 and \
+                            isinstance(x.ops[0], (ast.Is, ast.IsNot)) and (
+                                mentions_handle(x.left) or
+                                mentions_handle(x.comparators[0])):
+                        return (aliases, False)
+            if lab == 'e':
+                return st
+            for op in F.ops(node):
+                if op.kind == 'store' and op.path and \
+                        op.path[0] == '%local':
+                    v = store_value(op)
+                    if v is not None and mentions_handle(v):
+                        aliases = aliases | {op.path[1]}
+                        stale = False
+                if op.kind == 'call' and path_is(
+                        op.path, ('self', '_lock', 'release')) and aliases:
+                    stale = True
+            return (aliases, stale)
+
+        def at(node, st, F=F, f=f):
+            aliases, stale = st
+            if not stale:
+                return st
+            for op in F.ops(node):
+                if op.kind == 'call' and op.path and len(op.path) >= 3 and \
+                        op.path[0] == '%local' and op.path[1] in aliases:
+                    return Violation(
+                        '%s uses `%s`, which holds the data-file handle '
+                        'taken before the storage lock was given up, '
+                        'without comparing it with the current handle: a '
+                        'pack that ran in the window has replaced and '
+                        'closed that file' % (f.short, op.path[1]))
+            return st
+
+        vs, stats = explore(g, (frozenset(), False), at=at, edge=edge)
+        R.count(stats)
+        nwin += 1
+        R.instance('%s gives the lock up and re-takes it' % f.short)
+        for v in vs:
+            R.violation(v.node, v.message, g, v.path)
+    R.require(nwin >= 1, 'lock hand-over of undoLog vanished')
 
 
 @rule('C02.R8', 'readers and the writer of the file pool exclude each other: '
@@ -757,6 +853,47 @@ def r8(R):
                         sorted(w['reads']))
     R.instance('mutual announcement')
     R.instance('writer exit')
+    # a reader's check-out and check-in change the pool's lists under the
+    # condition only (a writer admitted between the two halves of a check-in
+    # empties the pool first, and the handle of the replaced file is pooled)
+    fget = R.method(cls, 'get')
+    g, b, F = R.cfg(fget, cls, max_depth=0)
+    watched = (w.get('reads', set()) | {'_files'}) - {'writing', 'writers'}
+    nlist = [0]
+
+    def list_change(node, F=F):
+        out = []
+        for op in F.ops(node):
+            if op.kind == 'call' and op.path and len(op.path) == 3 and \
+                    op.path[0] == 'self' and op.path[1] in watched and \
+                    op.path[2] in ('append', 'remove', 'pop', 'add',
+                                   'discard', 'clear', 'insert', 'extend'):
+                out.append(op)
+            elif op.kind in ('store', 'aug', 'setitem', 'delitem', 'del') \
+                    and op.path and len(op.path) >= 2 and \
+                    op.path[0] == 'self' and op.path[1] in watched:
+                out.append(op)
+        return out
+
+    def check_lists(node, held):
+        for op in list_change(node):
+            if ('self', '_cond') not in held:
+                return ('FilePool.get changes `%s` outside the condition: '
+                        'the writer can be admitted between the two halves '
+                        'of a reader\'s check-out or check-in, and the '
+                        'handle of a file the writer replaces ends up in '
+                        'the pool' % '.'.join(op.path[:2]))
+        return None
+
+    vs, stats = explore_locksets(g, F, check_lists)
+    R.count(stats)
+    for nid in g.reachable():
+        for op in list_change(g.nodes[nid]):
+            nlist[0] += 1
+            R.instance('FilePool.get: %s' % g.nodes[nid].text(50))
+    for v in vs:
+        R.violation(v.node, v.message, g, v.path)
+    R.require(nlist[0] >= 3, 'pool list changes of FilePool.get vanished')
     # writer exit: clears its flag and notifies under the condition
     fin = [t for t in ast.walk(fw.node) if isinstance(t, ast.Try) and
            t.finalbody]
